@@ -13,6 +13,7 @@ from vf.core import Ob, R, B
 from vf.rt import assume, pick, conc, cb, notrace
 from vf.stubs import MiniLoop, NullLogger, chan_conn, mkconn, AsyncioShim
 from props.chanlib import mkchan
+from props.chanlib import split_sent
 from props.connlib import frame, pframe, instrument, deliver
 from props.C10 import _Ident
 from props.C14 import Writer
@@ -137,6 +138,10 @@ def _chan_history(evs, lostexc, paused0, starting=False):
         if loop.exceptions:
             return False
     finished = lost or (local_closed and peer_closed) or peer_closed_empty
+    if peer_closed and not lost:
+        # the peer's CLOSE must be answered by ours - exactly one CLOSE on the wire, whatever was still queued for sending
+        if [k for k, _, _, _ in split_sent(conn.sent)].count('close') != 1:
+            return False
     if finished:
         # an orderly two-sided close (or connection loss) must already have released everything
         if not ('request' in res and 'read' in res and 'closed' in res and 'drain' in res):
